@@ -10,9 +10,10 @@ from ..g import g_Z, g_bool, g_list, g_nat, g_opt, g_str
 IMPORTS = "PyPrims Inherit"
 
 # ---------------------------------------------------------------------------------------------------- cases
-# node:  ("text", s) | ("var", x) | ("super",) | ("block", name, required, endname|None, [node]) | ("for", x, lo, hi, [node])
+# node:  ("text", s) | ("var", x) | ("super",) | ("superup",) | ("block", name, required, endname|None, [node]) | ("for", x, lo, hi, [node])
 # item:  ("node", node) | ("extends", parent)
-# case:  {"limit": int, "loader": {name: [item]}, "leaf": name, "data": {name: int}, "judge": bool, "tag": str}
+# case:  {"limit": int, "loader": {name: [item]}, "leaf": name, "data": {name: int}, "judge": bool, "tag": str,
+#         "suppress": bool (suppress_blank_control_flow_blocks; default True)}
 
 
 def node_src(n) -> str:
@@ -23,6 +24,8 @@ def node_src(n) -> str:
         return "{{ " + n[1] + " }}"
     if k == "super":
         return "{{ block.super }}"
+    if k == "superup":
+        return "{{ block.super | upcase }}"
     if k == "block":
         _, name, req, end, body = n
         return ("{% block " + name + (" required" if req else "") + " %}" + "".join(node_src(m) for m in body)
@@ -42,7 +45,9 @@ def g_node(n) -> str:
     if k == "var":
         return f"Var {g_str(n[1])}"
     if k == "super":
-        return "Super"
+        return "Super false"
+    if k == "superup":
+        return "Super true"
     if k == "block":
         _, name, req, end, body = n
         return f"Block {g_str(name)} {g_bool(req)} {g_opt(end, g_str)} {g_list(g_node(m) for m in body)}"
@@ -57,7 +62,7 @@ def g_template(t) -> str:
 def g_case(c) -> str:
     ld = g_list(f"({g_str(k)}, {g_template(t)})" for k, t in c["loader"].items())
     data = g_list(f"({g_str(k)}, {g_Z(v)})" for k, v in sorted(c["data"].items()))
-    return (f"{{| k_limit := {g_nat(c['limit'])}; k_loader := {ld}; k_leaf := {g_str(c['leaf'])}; "
+    return (f"{{| k_suppress := {g_bool(c.get('suppress', True))}; k_limit := {g_nat(c['limit'])}; k_loader := {ld}; k_leaf := {g_str(c['leaf'])}; "
             f"k_data := {data} |}}")
 
 
@@ -65,22 +70,23 @@ def g_case(c) -> str:
 _ENVCLS: dict = {}
 
 
-def make_env(limit: int, sources: dict):
+def make_env(limit: int, sources: dict, suppress: bool = True):
     from liquid import DictLoader, Environment
     import liquid.extra as ex
 
-    cls = _ENVCLS.get(limit)
+    cls = _ENVCLS.get((limit, suppress))
     if cls is None:
-        cls = type(f"Env{limit}", (Environment,), {"context_depth_limit": limit})
-        _ENVCLS[limit] = cls
+        cls = type(f"Env{limit}{suppress}", (Environment,),
+                   {"context_depth_limit": limit, "suppress_blank_control_flow_blocks": suppress})
+        _ENVCLS[(limit, suppress)] = cls
     env = cls(loader=DictLoader(sources))
     ex.add_tags(env)
     return env
 
 
-def run_impl(limit, sources, leaf, data, use_async):
+def run_impl(limit, sources, leaf, data, use_async, suppress=True):
     try:
-        env = make_env(limit, sources)
+        env = make_env(limit, sources, suppress)
         if use_async:
             async def go():
                 t = await env.get_template_async(leaf)
@@ -125,10 +131,28 @@ def _rejected(t) -> bool:
     return len(set(names)) != len(names) or any(b[3] is not None and b[3] != b[1] for b in bl)
 
 
+def _blank(n) -> bool:
+    """Engine-wide rule (docs: "blank" blocks): whitespace-only text is blank, {{ ... }} never is, a loop is when its body
+    is, and a block tag never is (it stands for whatever the chain defines for it)."""
+    if n[0] == "text":
+        return n[1] == "" or n[1].isspace()
+    if n[0] == "for":
+        return all(_blank(m) for m in n[4])
+    return False
+
+
 def reference(c):
     """('out', text) | ('err', class) | ('diverge',) | None (the documentation does not say)."""
     loader, data = c["loader"], c["data"]
     out: list = []
+    suppress = c.get("suppress", True)
+
+    def body(nodes, env, chain, cur, depth):
+        """A tag's block: when all its nodes are blank it still runs, but contributes no output."""
+        mark = len(out)
+        render(nodes, env, chain, cur, depth)
+        if suppress and all(_blank(m) for m in nodes):
+            del out[mark:]
 
     def defs(chain, name, frm):
         for lvl in range(frm, len(chain)):
@@ -148,18 +172,21 @@ def reference(c):
                 out.append(str(env[n[1]]) if n[1] in env else "")
             elif k == "for":
                 for v in range(n[2], n[3] + 1):
-                    render(n[4], {**env, n[1]: v}, chain, cur, depth)
-            elif k == "super":
+                    body(n[4], {**env, n[1]: v}, chain, cur, depth)
+            elif k in ("super", "superup"):
                 if cur is not None:
                     up = defs(chain, cur[0], cur[1] + 1)          # the next definition up the chain
                     if up is not None:
-                        render(up[1][4], env, chain, (cur[0], up[0]), depth + 1)
+                        mark = len(out)
+                        body(up[1][4], env, chain, (cur[0], up[0]), depth + 1)
+                        if k == "superup":                          # block.super is a string; filters apply to it
+                            out[mark:] = ["".join(out[mark:]).upper()]
             else:
                 md = defs(chain, n[1], 0) if chain else None       # the most-derived definition
                 lvl, b = md if md is not None else (0, n)
                 if b[2]:
                     raise _Raise("ERequiredBlock")                # required and nobody overrides it
-                render(b[4], env, chain, (n[1], lvl), depth + 1)
+                body(b[4], env, chain, (n[1], lvl), depth + 1)
 
     try:
         if c["leaf"] not in loader:
@@ -250,7 +277,7 @@ def shape(name: str, k: int, lvl: int, other: str):
         return ("block", name, True, None, [T(t)])
     if k == 4:
         return ("block", name, False, None,
-                [("for", "i", 1, 2, [("var", "i"), ("super",)]), ("var", "g"), T(t)])
+                [("for", "i", 1, 2, [("var", "i"), ("superup",) if lvl % 2 else ("super",)]), ("var", "g"), T(t.lower())])
     # 5: the other block nested inside
     return ("block", name, False, None,
             [T(t), ("block", other, False, None, [T(other + str(lvl)), ("super",)]), T(";")])
@@ -308,14 +335,16 @@ def gen_random(ck: Check, count: int, maxlen: int):
         out = []
         for _ in range(rng.randrange(1, 4)):
             r = rng.random()
-            if r < 0.25:
+            if r < 0.05:
+                out.append(T(rng.choice([" ", "\n ", "  "])))
+            elif r < 0.25:
                 counter[0] += 1
                 out.append(T(f"t{lvl}{counter[0]}"))
             elif r < 0.37:
                 pool = ["g", "h"] + (loopvars if lexical else ["i1", "i2", "i3"])
                 out.append(("var", rng.choice(pool)))
             elif r < 0.55 and inblock:
-                out.append(("super",))
+                out.append(("super",) if rng.random() < 0.8 else ("superup",))
             elif r < 0.85 and depth < 3:
                 nm = rng.choice(names)
                 end = None if rng.random() < 0.6 else (nm if rng.random() < 0.93 else rng.choice(names))
@@ -365,7 +394,8 @@ def gen_random(ck: Check, count: int, maxlen: int):
             loader[tn[lvl]] = items
         limit = 30 if rng.random() < 0.85 else rng.randrange(3, 10)
         data = {k: v for k, v in (("g", 7), ("h", 8)) if rng.random() < 0.7}
-        yield {"limit": limit, "loader": loader, "leaf": tn[0], "data": data, "judge": lexical, "tag": f"random{n}"}
+        yield {"limit": limit, "loader": loader, "leaf": tn[0], "data": data, "judge": lexical, "tag": f"random{n}",
+               "suppress": rng.random() < 0.9}
 
 
 def gen_probes(ck: Check):
@@ -431,9 +461,8 @@ def gen_placeholders(ck: Check):
         yield [("block", "a", True, None, body)]
         yield [("for", "i", 1, 1, [("block", "a", True, None, body)])]
     overrides = ([T("X")], [T("X"), ("super",)], [("var", "g")], [("for", "j", 1, 2, [T("y")])], [])
-    # (whitespace-only defaults are left out: the engine suppresses the output of ANY block whose body is only whitespace text,
-    # an engine-wide rule -- ast.BlockNode -- that is not about inheritance)
-    for body in ([],):
+    # whitespace-only defaults: by the engine-wide blank-body rule they give no output, also through block.super
+    for body in ([], [T(" ")], [T("\n  ")]):
         for hold in holders(body):
             for ov in overrides:
                 leaf = [("extends", "root"), ("node", ("block", "a", False, None, ov))]
@@ -446,6 +475,33 @@ def gen_placeholders(ck: Check):
                 yield {"limit": 30, "leaf": "leaf", "data": {"g": 7}, "judge": True, "tag": "placeholder-mid",
                        "loader": {"leaf": leaf, "root": [("extends", "base"), ("node", ("block", "a", False, None, body))],
                                   "base": [("node", T("["))] + [("node", m) for m in hold] + [("node", T("]"))]}}
+
+
+def gen_blank(ck: Check):
+    """The blank-body rule around inheritance: whitespace-only bodies reached through block tags, through block.super and
+    in loops, next to block tags, with suppress_blank_control_flow_blocks on and off."""
+    ws = (T(" "), T("\n "), T("\t"))
+    bodies = ([], [ws[0]], [ws[1], ws[2]], [ws[0], T("x")], [("for", "k", 1, 2, [ws[0]])], [("for", "k", 1, 2, [ws[0], ("var", "g")])],
+              [ws[0], ("super",)], [("super",)], [("for", "k", 1, 2, [("super",)])], [ws[0], ("block", "n", False, None, [ws[0]])])
+    for suppress in (True, False):
+        for leafbody, rootbody in itertools.product(bodies, repeat=2):
+            leaf = [("extends", "root"), ("node", ws[0]), ("node", ("block", "a", False, None, leafbody))]
+            for hold in ([("block", "a", False, None, rootbody)],
+                         [("for", "i", 1, 2, [ws[0], ("block", "a", False, None, rootbody)])],
+                         [("for", "i", 1, 2, [("block", "a", False, None, rootbody)]), ws[1]]):
+                yield {"limit": 30, "leaf": "leaf", "data": {"g": 7}, "judge": True, "tag": "blank2", "suppress": suppress,
+                       "loader": {"leaf": leaf, "root": [("node", T("[")), ("node", ws[0])] + [("node", m) for m in hold] + [("node", T("]"))]}}
+        for b1, b2, b3 in itertools.product(bodies[:8], repeat=3):
+            if ck.quick and ck.rng.random() < 0.5:
+                continue
+            yield {"limit": 30, "leaf": "leaf", "data": {"g": 7}, "judge": True, "tag": "blank3", "suppress": suppress,
+                   "loader": {"leaf": [("extends", "mid"), ("node", ("block", "a", False, None, b1))],
+                              "mid": [("extends", "root"), ("node", ("block", "a", False, None, b2))],
+                              "root": [("node", T("[")), ("node", ("for", "i", 1, 2, [("block", "a", False, None, b3)])), ("node", T("]"))]}}
+        for b in bodies:
+            yield {"limit": 30, "leaf": "leaf", "data": {"g": 7}, "judge": True, "tag": "blank1", "suppress": suppress,
+                   "loader": {"leaf": [("node", ws[0]), ("node", ("block", "a", False, None, b))]
+                                      + ([] if list(_blocks(b)) else [("node", ("for", "i", 1, 2, b))]) + [("node", ws[1]), ("node", T("."))]}}
 
 
 # --------------------------------------------------------------------------------------------------------- run
@@ -464,7 +520,10 @@ def run(ck: Check) -> None:
         "with super), junk after the extends tag; seeded random chains of 1..3 (thorough 1..4) templates over block names {a,b,c}, "
         "nesting <= 2, loops, variables, super at any depth, required flags, endblock names (matching and not), duplicate names, "
         "content before the extends tag, cycles, missing parents, two extends tags, depth limit 30 or 3..9; probes: depth guards at "
-        "their thresholds, variable visibility in super, mutually recursive blocks, cycles of length 1..4. Every case rendered sync "
+        "their thresholds, variable visibility in super, mutually recursive blocks, cycles of length 1..4; placeholders: empty and "
+        "whitespace-only defaults alone in a loop / an outer block / on their own, overridden by a descendant; blank bodies: 10 "
+        "whitespace/loop/super bodies as leaf, middle and root definition of a block inside and outside loops, with "
+        "suppress_blank_control_flow_blocks on and off. Every case rendered sync "
         "and async. Non-trivial = a block tag was reached in a chain of >= 2 templates, or an inheritance error was raised."
     )
     ck.exhaustive = True
@@ -476,20 +535,22 @@ def run(ck: Check) -> None:
     ]
     ck.assumptions = [
         "extends tags only at the top level of a template; values are integers; default Undefined; STRICT mode; no autoescape",
+        "blankness (Node.blank) is modelled for text, output, for and block nodes only; str.isspace is a modelled primitive",
         "no loop-iteration / output-stream / local-namespace limits configured; loop variables are not called `block`",
         "endless mutual recursion between blocks: RecursionError from the Python stack is read as the depth guard (C02/C09 own that escape)",
     ]
     ck.proof()
 
     n_random = 1500 if ck.quick else 15000
-    cases = itertools.chain(gen_probes(ck), gen_placeholders(ck), gen_shaped(ck), gen_random(ck, n_random, 3 if ck.quick else 4))
+    cases = itertools.chain(gen_probes(ck), gen_placeholders(ck), gen_blank(ck), gen_shaped(ck), gen_random(ck, n_random, 3 if ck.quick else 4))
     gcases, expected, meta = [], [], []
     explained = set()
     nviol = 0
     for c in cases:
         src = sources_of(c)
-        s = run_impl(c["limit"], src, c["leaf"], c["data"], False)
-        a = run_impl(c["limit"], src, c["leaf"], c["data"], True)
+        sup = c.get("suppress", True)
+        s = run_impl(c["limit"], src, c["leaf"], c["data"], False, sup)
+        a = run_impl(c["limit"], src, c["leaf"], c["data"], True, sup)
         # Blocks that render each other without end: the interpreter stack may run out before the depth guard fires
         # (about 70 Python frames per block+super round).  That escape of RecursionError belongs to C02/C09; here both
         # count as "aborted by depth", and the model must then predict the depth guard.
@@ -498,7 +559,7 @@ def run(ck: Check) -> None:
             s, a = _depth(s), _depth(a)
         n = chain_len(c)
         nontrivial = (n >= 2 and any("block" in v for v in src.values())) or s in (("err", "EInherit"), ("err", "ERequiredBlock"))
-        ck.note_case((c["limit"], sorted(src.items()), c["leaf"], sorted(c["data"].items())), nontrivial=nontrivial)
+        ck.note_case((c["limit"], c.get("suppress", True), sorted(src.items()), c["leaf"], sorted(c["data"].items())), nontrivial=nontrivial)
         ck.count(f"{c['tag']}.{s[0] if s[0] == 'out' else s[1]}")
         ck.count(f"chain-length.{n}")
         v = verdict(c, s, a)
@@ -508,9 +569,9 @@ def run(ck: Check) -> None:
             if nviol < 40:
                 nviol += 1
                 ck.violation("impl-violation", v[0], f"{src!r} leaf {c['leaf']!r} data {c['data']!r} limit {c['limit']}: {v[1]}",
-                             {"type": "render", "limit": c["limit"], "sources": src, "leaf": c["leaf"], "data": c["data"],
+                             {"type": "render", "limit": c["limit"], "suppress": c.get("suppress", True), "sources": src, "leaf": c["leaf"], "data": c["data"],
                               "sync": s, "async": a, "reference": reference(c) if c["judge"] else None})
-        if len(ck.samples) < 4 and n >= 2 and s[0] == "out" and "super" in "".join(src.values()) and c["tag"].startswith("random"):
+        if len(ck.samples) < 4 and n >= 2 and s[0] == "out" and "block.super" in "".join(src.values()) and c["tag"].startswith("random"):
             ck.sample({"templates": src, "leaf": c["leaf"], "data": c["data"], "output": s[1]})
         gcases.append(g_case(c))
         expected.append(_obs(s))
@@ -529,9 +590,9 @@ def run(ck: Check) -> None:
         ck.violation("correspondence", "c18-inherit-correspondence",
                      f"model Inherit.run_inherit and the implementation disagree on {src!r} (leaf {c['leaf']!r}, data {c['data']!r}, "
                      f"limit {c['limit']}): implementation {s}, model {model}",
-                     {"type": "render", "limit": c["limit"], "sources": src, "leaf": c["leaf"], "data": c["data"], "impl": s,
+                     {"type": "render", "limit": c["limit"], "suppress": c.get("suppress", True), "sources": src, "leaf": c["leaf"], "data": c["data"], "impl": s,
                       "model": model, "broken": "correspondence Inherit.run_inherit ~ extends/block rendering "
-                      "(theorems C18_most_derived, C18_standalone_partial)"}, no_input=True)
+                      "(theorems C18_most_derived, C18_override_rendered_through_placeholders, C18_standalone_partial)"}, no_input=True)
 
 
 def replay(data) -> int:
@@ -539,8 +600,9 @@ def replay(data) -> int:
     if case.get("type") != "render":
         print("replay names a proof/correspondence obligation:", case)
         return 1
-    s = _depth(run_impl(case["limit"], case["sources"], case["leaf"], case["data"], False))
-    a = _depth(run_impl(case["limit"], case["sources"], case["leaf"], case["data"], True))
+    sup = case.get("suppress", True)
+    s = _depth(run_impl(case["limit"], case["sources"], case["leaf"], case["data"], False, sup))
+    a = _depth(run_impl(case["limit"], case["sources"], case["leaf"], case["data"], True, sup))
     print("templates:", case["sources"], "leaf:", case["leaf"], "data:", case["data"], "limit:", case["limit"])
     print("sync :", s)
     print("async:", a)
